@@ -1,4 +1,146 @@
+(* C02 — proofs, part 6: whole histories. *)
 From stdpp Require Import gmap.
-From Verif.C02 Require Import Model Spec.
+From Verif.C02 Require Import Model Spec ProofsKV ProofsSched ProofsIP ProofsMain ProofsCb.
+Local Open Scope N_scope.
+
 Lemma sel_nil t : sel t [] = [].
 Proof. done. Qed.
+
+Lemma Sync0 : Sync seq0 world0 world0.
+Proof.
+  unfold Sync. split_and!.
+  - unfold ipInv, seq0, ipst0, world0. simpl. split_and!.
+    + intros id. rewrite lookup_empty. split; [set_solver|intros [? ?]; done].
+    + intros id Hin. set_solver.
+    + intros id. rewrite !lookup_empty. by destruct (decide _).
+    + intros id [? H]. by rewrite lookup_empty in H.
+    + intros id M _ H. by rewrite lookup_empty in H.
+    + intros id _ _. by rewrite !lookup_empty.
+  - unfold kvSync, seq0, kvst0, world0. simpl. split_and!.
+    + intros c. rewrite lookup_empty. split; [set_solver|intros [? ?]; done].
+    + intros c Hin. set_solver.
+    + intros c Hin. set_solver.
+    + intros c. rewrite !lookup_empty. by destruct (decide _).
+  - unfold typed, world0. simpl. intros c v H. by rewrite lookup_empty in H.
+  - unfold typed, world0. simpl. intros c v H. by rewrite lookup_empty in H.
+  - unfold closed, world0. simpl. apply map_Forall_empty.
+Qed.
+
+Lemma cb_step q up dp e :
+  Sync q up dp → cb_ok up e → ∃ q', on_cb e q = Some q' ∧ Sync q' (apply_cb up e) dp.
+Proof.
+  intros (HI & HKV & Htu & Htd & Hcd) Hok. destruct q as [i k]. simpl in *.
+  destruct e as [id ty|id|id m|id m|c v|c]; simpl in *.
+  - destruct (ip_cb_added id ty _ _ _ HI Hok) as (i' & -> & HI'). eexists. split; [done|]. by split_and!.
+  - destruct (ip_cb_removed id _ _ _ HI Hok) as (i' & -> & HI'). eexists. split; [done|]. by split_and!.
+  - destruct (w_sets up !! id) as [U|] eqn:EU; [|done].
+    destruct (ip_cb_member_added id m _ _ _ U HI EU Hok) as (i' & -> & HI'). eexists. split; [done|]. by split_and!.
+  - destruct (w_sets up !! id) as [U|] eqn:EU; [|done].
+    destruct (ip_cb_member_removed id m _ _ _ U HI EU Hok) as (i' & -> & HI'). eexists. split; [done|]. by split_and!.
+  - destruct Hok as [Hc Hv]. eexists. split; [done|]. split_and!; try done.
+    + by apply kv_cb_update.
+    + by apply typed_insert.
+  - eexists. split; [done|]. split_and!; try done.
+    + by apply kv_cb_remove.
+    + by apply typed_delete.
+Qed.
+
+(* the main induction: a history inside the contract runs without panic, every message is
+   well-formed and leaves the dataplane closed, and the invariant holds at the end *)
+Lemma hist_ok late : ∀ h q up dp,
+  Sync q up dp → contract_gen late dp up h →
+  ∃ q' ms, seq_run late q h = Some (q', ms) ∧ stream_ok dp ms ∧
+           ∃ dp', Sync q' (upstream up h) dp' ∧
+                  (∀ h0 o, h = h0 ++ [SFlush o] → apply_msgs dp ms = upstream up h).
+Proof.
+  induction h as [|e h IH]; intros q up dp HS Hc; simpl in *.
+  - exists q, []. split_and!; try done. exists dp. split; [done|]. intros h0 o E. by destruct h0.
+  - destruct e as [e|o]; simpl.
+    + destruct Hc as [Hok Hc]. destruct (cb_step _ _ _ _ HS Hok) as (q1 & -> & HS1). simpl.
+      destruct (IH _ _ _ HS1 Hc) as (q' & ms & -> & Hok' & dp' & HS' & Hend). simpl.
+      exists q', ms. split_and!; try done. exists dp'. split; [done|].
+      intros h0 o E. destruct h0 as [|x h0]; [done|]. simpl in E; injection E as _ E. eauto.
+    + destruct Hc as (Hcl & Hnr & Hc).
+      destruct (flush_gen late o q) as [q1 m1] eqn:Ef.
+      destruct (flush_ok late o q q1 m1 up dp HS Hcl Hnr Ef) as (Hok1 & Hd1 & HS1).
+      destruct (IH _ _ _ HS1 Hc) as (q' & ms & Hrun & Hok' & dp' & HS' & Hend). rewrite Hrun. simpl.
+      exists q', (m1 ++ ms). split_and!; try done.
+      * apply stream_ok_app; [done|]. by rewrite Hd1.
+      * exists dp'. split; [done|]. intros h0 o' E. rewrite apply_msgs_app, Hd1.
+        destruct h0 as [|x h0].
+        -- simpl in E; injection E as _ E. subst h. simpl in Hrun. injection Hrun as _ <-. done.
+        -- simpl in E; injection E as _ E. eauto.
+Qed.
+
+Lemma contract_gen_true dp up h : contract up h → contract_gen true dp up h.
+Proof.
+  revert dp up. induction h as [|[e|o] h IH]; intros dp up; simpl; [done| |].
+  - intros [? ?]. auto.
+  - intros [? ?]. split_and!; auto. done.
+Qed.
+
+(* every prefix of an accepted stream *)
+Lemma stream_ok_prefix w a m b :
+  stream_ok w (a ++ m :: b) → msg_ok (apply_msgs w a) m ∧ closed (apply_msgs w (a ++ [m])).
+Proof.
+  revert w. induction a as [|x a IH]; intros w; simpl.
+  - intros (? & ? & _). done.
+  - intros (_ & _ & H). apply (IH _ H).
+Qed.
+
+Global Instance contract_dec w h : Decision (contract w h).
+Proof. revert w. induction h as [|[e|o] h IH]; intros w; simpl; apply _. Defined.
+
+Lemma upstream_app_flush w h o : upstream w (h ++ [SFlush o]) = upstream w h.
+Proof. revert w. induction h as [|[e|o'] h IH]; intros w; simpl; auto. Qed.
+
+Lemma run_ok late h q' ms :
+  contract_gen late world0 world0 h → seq_run late seq0 h = Some (q', ms) → stream_ok world0 ms.
+Proof.
+  intros Hc Hr. destruct (hist_ok late h seq0 world0 world0 Sync0 Hc) as (q2 & ms2 & Hr2 & Hok & _).
+  rewrite Hr in Hr2. by injection Hr2 as <- <-.
+Qed.
+
+Lemma no_panic late h : contract_gen late world0 world0 h → is_Some (seq_run late seq0 h).
+Proof.
+  intros Hc. destruct (hist_ok late h seq0 world0 world0 Sync0 Hc) as (q2 & ms2 & Hr2 & _). rewrite Hr2. eauto.
+Qed.
+
+Lemma net_effect late h o q' ms :
+  contract_gen late world0 world0 (h ++ [SFlush o]) →
+  seq_run late seq0 (h ++ [SFlush o]) = Some (q', ms) →
+  apply_msgs world0 ms = upstream world0 h.
+Proof.
+  intros Hc Hr. destruct (hist_ok late _ seq0 world0 world0 Sync0 Hc) as (q2 & ms2 & Hr2 & _ & dp' & _ & Hend).
+  rewrite Hr in Hr2. injection Hr2 as <- <-. rewrite (Hend h o eq_refl). apply upstream_app_flush.
+Qed.
+
+Lemma refs_present late h q' ms a m b :
+  contract_gen late world0 world0 h → seq_run late seq0 h = Some (q', ms) → ms = a ++ m :: b →
+  closed (apply_msgs world0 (a ++ [m])).
+Proof. intros Hc Hr ->. by destruct (stream_ok_prefix _ _ _ _ (run_ok _ _ _ _ Hc Hr)). Qed.
+
+Lemma msgs_wellformed late h q' ms a m b :
+  contract_gen late world0 world0 h → seq_run late seq0 h = Some (q', ms) → ms = a ++ m :: b →
+  msg_ok (apply_msgs world0 a) m.
+Proof. intros Hc Hr ->. by destruct (stream_ok_prefix _ _ _ _ (run_ok _ _ _ _ Hc Hr)). Qed.
+
+(* the witness against the phase order of the code as it stands *)
+Definition retarget_history : list sev :=
+  [SCb (CUpdate (KVtep, 0) (V [] 1)); SCb (CUpdate (KRoute, 3) (V [(KVtep, 0)] 2)); SFlush [];
+   SCb (CUpdate (KVtep, 2) (V [] 3)); SCb (CUpdate (KRoute, 3) (V [(KVtep, 2)] 4)); SCb (CRemove (KVtep, 0));
+   SFlush []].
+
+Definition refuted_check : bool :=
+  match seq_run false seq0 retarget_history with Some (_, ms) => negb (ok_msgs world0 ms) | None => false end.
+Lemma refuted_check_true : refuted_check = true.
+Proof. vm_compute. reflexivity. Qed.
+
+(* [refuted_check] says: the history runs (no panic) under the order of the code as it stands and the
+   stream it emits is NOT accepted ([ok_msgs] is [stream_ok], lemma ok_msgs_spec) *)
+Lemma retarget_refuted : contract world0 retarget_history ∧ refuted_check = true.
+Proof.
+  split.
+  - refine (bool_decide_unpack _ _). vm_compute. exact I.
+  - exact refuted_check_true.
+Qed.
